@@ -1296,16 +1296,18 @@ func perturb(r *wk.Rand, v any, native bool) (any, string) {
 	}
 	switch x := l.val.(type) {
 	case int64:
-		nv = wk.Pick(r, []any{x + 1, x - 1, int64(0), -x, float64(x) + 0.5, math.Inf(1), 1e19, uint64(math.MaxUint64), fmt.Sprint(x) + " ", " ", "\t", fmt.Sprintf("%d.0", x), float32(x)})
+		nv = wk.Pick(r, []any{x + 1, x - 1, int64(0), -x, float64(x) + 0.5, math.Inf(1), 1e19, uint64(math.MaxUint64), fmt.Sprint(x) + " ", " ", "\t", fmt.Sprintf("%d.0", x), float32(x), nil})
 	case float64:
-		nv = wk.Pick(r, []any{math.Nextafter(x, math.Inf(1)), math.Nextafter(x, math.Inf(-1)), math.NaN(), math.Inf(-1), math.Copysign(0, -1), x * 2, " ", "1e400", float32(x)})
+		nv = wk.Pick(r, []any{math.Nextafter(x, math.Inf(1)), math.Nextafter(x, math.Inf(-1)), math.NaN(), math.Inf(-1), math.Copysign(0, -1), x * 2, " ", "1e400", float32(x), nil})
 	case string:
 		nv = wk.Pick(r, perturbStrings)
 		if r.Chance(30) {
 			nv = x + wk.Pick(r, []string{"é", "日", "x", " "})
+		} else if r.Chance(8) {
+			nv = nil // an explicit null where a value was
 		}
 	case bool:
-		nv = wk.Pick(r, []any{"TRUE", "nope", int64(2), int64(1), 1.0, "Y", ""})
+		nv = wk.Pick(r, []any{"TRUE", "nope", int64(2), int64(1), 1.0, "Y", "", nil})
 	default:
 		nv = wk.Pick(r, []any{nil, "", int64(0)})
 	}
